@@ -781,7 +781,15 @@ def _vectorize_func(func):
 
     # What should work once that Jax backend is fully supported
     signature = inspect.signature(func)
-    func_vec = numpy.vectorize(func)
+    # Without `otypes`, numpy.vectorize infers the dtype of the whole output column
+    # from the result for the first row. A function declared to return a float which
+    # returns an integer literal on some branch (e.g. `return 0`) would then yield an
+    # integer column whenever the first row takes that branch, truncating the values
+    # of all other rows.
+    if getattr(func, "__annotations__", {}).get("return") is float:
+        func_vec = numpy.vectorize(func, otypes=[float])
+    else:
+        func_vec = numpy.vectorize(func)
 
     @functools.wraps(func)
     def wrapper_vectorize_func(*args, **kwargs):
